@@ -719,16 +719,16 @@ def c15_multi(ctx):
         ctx.model("c15-multi-" + nm, c, MULTI_INV, ["BoundStable"])
         if live:
             ctx.model("c15-multi-live-" + nm, dict(c, MaxSend=0), [], ["Completes"], spec="FairSpec")
-        ctx.export_validate("c15x-multi-" + nm, c, "multi", maxsched=120 if q else 6000)
+        ctx.export_validate("c15x-multi-" + nm, c, "multi", maxsched=120 if q else 1500)
     # the two clients allow different versions: A (2 and 3) ends up with the v3-only client under tags, or with the v2-only one
     c = dict(Multi=True, PolA=3, PolB=2, PolC=1, Prelude=[QA], MaxSend=1, MaxFlight=2)
     ctx.model("c15-multi-mixed", c, ["BystanderIgnored", "PairedWithBound", "OtherNeverSecure", "NoBoundReject", "QuietImpliesPaired"], ["BoundStable"])
     ctx.model("c15-multi-live-mixed", dict(c, MaxSend=0), [], ["Completes"], spec="FairSpec")
-    ctx.export_validate("c15x-multi-mixed", c, "multi", maxsched=80 if q else 6000)
+    ctx.export_validate("c15x-multi-mixed", c, "multi", maxsched=80 if q else 1500)
     # life of the binding: End and a new start by any of the three
     c = dict(Multi=True, PolA=2, PolB=2, PolC=2, Prelude=[QA], MaxSend=0 if q else 1, MaxFlight=2, MaxEnd=1, MaxQuery=0 if q else 1)
     ctx.model("c15-multi-life", c, ["BystanderIgnored", "DeliveredFromBound", "PairedWithBound", "OtherNeverSecure"], ["BoundStable"])
-    ctx.export_validate("c15x-multi-life", c, "multi-life", maxsched=120 if q else 6000)
+    ctx.export_validate("c15x-multi-life", c, "multi-life", maxsched=120 if q else 1500)
     # non-vacuity: version 2 has no instance tags, the same situation mixes the two clients up
     ctx.model_expect_violation("c15-multi-v2", dict(Multi=True, PolA=1, PolB=1, PolC=1, Prelude=[QA], MaxSend=1, MaxFlight=2), MULTI_INV, kf={})
 
